@@ -6,7 +6,7 @@
    constants, and every sequence of them is one [mark m], m in MARKS.
    [mark_level m] = 3 / 2 / 1 / 0 when the highest mark in m is quads / trips / pair / none.
    Cards are [layout r s], r < 13, s < 4 (C10).  The proofs are general from layout r s < 2^29. *)
-From CKC Require Import Base.Prelude Spec.Layout Model.Card Proofs.CardFacts Proofs.C20.
+From CKC Require Import Base.Prelude Spec.Layout Model.Card Proofs.CardBase Proofs.C20.
 From CKC Require Import Gen.Consts.
 Open Scope N_scope.
 
